@@ -157,6 +157,9 @@ func (u *Universe) buildStruct(q, name string, st *types.Struct) *structInfo {
 		si.gnames = append(si.gnames, f.Name())
 		parts = append(parts, fmt.Sprintf("(%s %s)", acc, fs))
 	}
+	if len(si.fields) > 0 {
+		structFirstField[name] = si.fields[0]
+	}
 	if len(parts) == 0 {
 		u.structDecl = append(u.structDecl, fmt.Sprintf("(declare-datatypes ((%s 0)) (((%s))))", name, si.ctor))
 	} else {
